@@ -332,6 +332,9 @@ macro_rules! static_pair_harness {
         }
     };
 }
+#[cfg(feature = "verif_experimental")] // > 15 min for a single pair
 static_pair_harness!(add_assign_static_rule_floats_into_int_array, T_ARR_INT, T_ARR_FLOAT);
+#[cfg(feature = "verif_experimental")] // > 15 min for a single pair
 static_pair_harness!(add_assign_static_rule_ints_into_int_array, T_ARR_INT, T_ARR_INT);
+#[cfg(feature = "verif_experimental")] // > 15 min for a single pair
 static_pair_harness!(add_assign_static_rule_float_into_int, T_INT, T_FLOAT);
